@@ -34,5 +34,7 @@ def check(ctx):
     # "once" at the level of executions of the user's function: a node's function is attempted at most retry=n times, by a retry
     # wrapper applied per executed node (premises C10.F6 / F7 re-evaluated here)
     ctx.rule("C04.D6", "per executed node the function is invoked through a retry wrapper applied for that node, and the retry loop (evaluated for n = 1..4, every failing prefix) makes at most n attempts and stops at the first success")
+    from .evalrules import rule_run_callback
+    ctx.run(lambda c_: rule_run_callback(c_, rr, rid_binding="C04.D6"))
     ctx.run(R.rule_retry_loop, "C04.D6", rr)
     ctx.run(R.rule_retry_coverage, "C04.D6", rr)
